@@ -15,29 +15,35 @@ def main():
     ids = sys.argv[1:] or sorted(d for d in os.listdir(S) if os.path.isdir(os.path.join(S, d)))
     if sh("git -C /repo diff --quiet").returncode != 0:
         print("/repo has uncommitted changes"); return 2
+    only_missing = False
     rows = []
     for sid in ids:
         d = os.path.join(S, sid)
         meta = json.load(open(os.path.join(d, "meta.json")))
         patch = os.path.join(d, "patch_current.diff") if os.path.exists(os.path.join(d, "patch_current.diff")) else os.path.join(d, "patch.diff")
-        r = sh("git -C /repo apply %s 2>/dev/null || git -C /repo apply --3way %s" % (patch, patch))
+        # a scratch git worktree of /repo's HEAD outside /repo and /verif (3-way apply needs the objects); /repo stays untouched
+        work = os.environ.get("VERIF_WORK", "/var/tmp/rinkverif")
+        wt = os.path.join(work, "scratch", "seed-" + sid)
+        sh("git -C /repo worktree remove --force %s; rm -rf %s; mkdir -p %s" % (wt, wt, os.path.dirname(wt)))
+        sh("git -C /repo worktree add --detach %s HEAD" % wt)
+        r = sh("git -C %s apply %s 2>/dev/null || git -C %s apply --3way %s" % (wt, patch, wt, patch))
         if r.returncode != 0:
-            sh("git -C /repo reset -q --hard HEAD")
+            sh("git -C /repo worktree remove --force %s" % wt)
             meta["detected_by"] = None
             meta["applies_to_current_tree"] = False
             rows.append((sid, meta["property"], "patch does not apply to the repaired tree", ""))
             json.dump(meta, open(os.path.join(d, "meta.json"), "w"), indent=1)
             continue
-        sh("git -C /repo reset -q")
+        sh("git -C %s reset -q" % wt)
         props = [meta["property"]] + meta.get("also_check", [])
         det = {}
         for p in props:
-            out = sh("cd %s && VERIF_NO_EVIDENCE=1 bin/check %s" % (V, p))
+            out = sh("cd %s && VERIF_REPO=%s VERIF_NO_EVIDENCE=1 bin/check %s" % (V, wt, p))
             keys = re.findall(r"^    key=(.*)$", out.stdout, re.M)
             kinds = re.findall(r"^(VIOLATION|ANCHOR-LOST): property=(\S+) rule=(\S+)", out.stdout, re.M)
             if out.returncode != 0:
                 det[p] = {"exit": out.returncode, "rules": sorted(set(k[2] for k in kinds)), "keys": keys[:6], "anchor_lost_only": bool(kinds) and all(k[0] == "ANCHOR-LOST" for k in kinds)}
-        sh("git -C /repo checkout -- . && git -C /repo clean -fdq -e target")
+        sh("git -C /repo worktree remove --force %s" % wt)
         meta["applies_to_current_tree"] = True
         meta["patch_used"] = os.path.basename(patch)
         meta["detected_by"] = det or None
